@@ -55,7 +55,7 @@ MIN_HITS = {
         'layout:transposed': 30, 'layout:field-view': 20, 'order:swapped': 50, 'shape:0d': 50, 'shape:empty': 50,
         'shape:rank>=4': 30, 'dtype:bfloat16': 20, 'dtype:float16': 20, 'dtype:complex64': 20, 'dtype:uint64': 20,
         'dtype:bool': 20, 'depth:0': 20, 'depth:4': 20, 'reject:raised-serialize': 50, 'reject:raised-deserialize': 20,
-        'sqlite:clients': 150, 'state:checkpoints': 40,
+        'sqlite:clients': 150, 'state:checkpoints': 40, 'hit:failed-save': 25, 'hit:sqlite-overlapping-reads': 50,
     },
     'thorough': {
         'mon:roundtrip': 12000, 'mon:reject': 3000, 'mon:sqlite': 3000, 'mon:state': 1000, 'mon:readonly': 12000,
@@ -65,7 +65,7 @@ MIN_HITS = {
         'shape:0d': 1000, 'shape:empty': 1000, 'shape:rank>=4': 500, 'dtype:bfloat16': 300, 'dtype:float16': 300,
         'dtype:complex64': 300, 'dtype:uint64': 300, 'dtype:bool': 300, 'depth:0': 300, 'depth:4': 300,
         'reject:raised-serialize': 1000, 'reject:raised-deserialize': 300, 'sqlite:clients': 3000,
-        'state:checkpoints': 700,
+        'state:checkpoints': 700, 'hit:failed-save': 400, 'hit:sqlite-overlapping-reads': 900,
     },
 }
 TECHNIQUE = ('runtime monitoring: structural bitwise round-trip oracle over generated nested structures, reject-or-equal '
@@ -783,6 +783,10 @@ def run_sqlite(ctx, sfd, rng, scratch):
             'clients': [(c, ds.all_examples()) for c, ds in fd.clients()],
             'get_client': [(c, fd.get_client(c).all_examples()) for c in ids],
             'get_clients': [(c, ds.all_examples()) for c, ds in fd.get_clients(list(reversed(ids)))],
+            # overlapping reads on one dataset object: a table scan in progress while point look-ups / another scan run
+            'scan_with_lookups': [(c, fd.client_size(c), ds.all_examples(), fd.get_client(c).all_examples())
+                                  for c, ds in fd.clients()],
+            'zip_ids_sizes': list(zip(fd.client_ids(), fd.client_sizes())),
         }
       finally:
         fd._connection.close()  # pylint: disable=protected-access
@@ -814,6 +818,20 @@ def run_sqlite(ctx, sfd, rng, scratch):
         ctx.klass('sqlite:clients')
         if mism:
           report_mismatches(ctx, mism, 'sqlite', {**wit, 'method': method, 'client': c}, lambda e: leafmap.get(id(e)))
+    scan = got['scan_with_lookups']
+    ctx.count('hit:sqlite-overlapping-reads')
+    ok_scan = [c for c, _, _, _ in scan] == ids and [n for _, n, _, _ in scan] == [n for _, n in exp_sizes]
+    ctx.check(ok_scan, 'sqlite/overlapping-reads-ids', 'clients() interleaved with client_size()/get_client() on the same dataset '
+              f'object visited {[c for c, _, _, _ in scan]!r:.200} with sizes {[n for _, n, _, _ in scan]}', wit)
+    if ok_scan:
+      for c, _, ex_a, ex_b in scan:
+        for tag, ex in (('scan', ex_a), ('lookup-during-scan', ex_b)):
+          mism = []
+          compare(expected[c][1], ex, f'{tag}[{c!r}]', mism)
+          if mism:
+            report_mismatches(ctx, mism, 'sqlite', {**wit, 'method': 'overlapping-' + tag, 'client': c}, lambda e: leafmap.get(id(e)))
+    ctx.check(got['zip_ids_sizes'] == [(c, (c, n)) for c, n in exp_sizes], 'sqlite/overlapping-reads-zip',
+              f"zip(client_ids(), client_sizes()) on one dataset object = {got['zip_ids_sizes']!r:.200}", wit)
     nontrivial = any(expected[c][0] > 0 for c in ids)
     ctx.case_done(('sqlite', before) if nontrivial else None,
                   sample={'client_ids': ids, 'sizes': wit['sizes'], 'add_many_calls': len(cuts) - 1,
@@ -821,6 +839,16 @@ def run_sqlite(ctx, sfd, rng, scratch):
                   klass=['sqlite'])
   finally:
     shutil.rmtree(d, ignore_errors=True)
+
+
+class _SaveFault(Exception):
+  pass
+
+
+class _Unpicklable:
+
+  def __reduce__(self):
+    raise _SaveFault('leaf cannot be pickled')
 
 
 def _install_state_class(fedjax):
@@ -948,6 +976,24 @@ def run_state(ctx, fedjax, rng, scratch):
       compare_state(st, got_state, mism)
       ctx.check(not mism, 'state/checkpoint-state-differs', 'load_latest_checkpoint state != saved state: ' +
                 '; '.join(f'{p}: {dt}' for p, _, dt, _, _ in mism[:3]), w2)
+    # ---- a save that fails half-way (a leaf that cannot be pickled, reached after megabytes were already written) must leave
+    #      the last good checkpoint the latest loadable one
+    if states and len(states) == len(rounds) and 'rl' in locals() and rl.ok:
+      big = np.arange(300000, dtype=np.float64)
+      doomed = {'head': big, 'state': states[-1], 'tail': _Unpicklable()}
+      w3 = {**wit, 'rounds': rounds, 'keep': keep, 'failing_round': rounds[-1] + 1}
+      rf = ctx.call('save_checkpoint', checkpoint.save_checkpoint, root, doomed, rounds[-1] + 1, keep, expect=(_SaveFault,), witness=w3)
+      if not rf.ok and isinstance(rf.exc, _SaveFault):
+        ctx.count('hit:failed-save')
+        rl2 = ctx.call('load_latest_checkpoint[after-failed-save]', checkpoint.load_latest_checkpoint, root, witness=w3)
+        if rl2.ok:
+          okp = isinstance(rl2.value, tuple) and len(rl2.value) == 2 and rl2.value[1] == rounds[-1]
+          mism = []
+          if okp:
+            compare_state(states[-1], rl2.value[0], mism)
+          ctx.check(okp and not mism, 'state/failed-save-hides-last-checkpoint',
+                    'after a save_checkpoint that raised half-way, load_latest_checkpoint no longer returns the last saved state',
+                    {**w3, 'loaded_round': rl2.value[1] if isinstance(rl2.value, tuple) and len(rl2.value) == 2 else repr(rl2.value)[:80]})
     ctx.case_done(('state', kind, content_digest(repr(state)), tuple(rounds), keep),
                   sample={'state_kind': kind, 'rounds': rounds, 'keep': keep, 'state': repr(state)[:300]},
                   klass=['state', 'state:' + kind])
